@@ -265,6 +265,12 @@ def rules(P, R, prefix="C13"):
                     need = Not(Atom("empty(%s)" % ctx.term(rec))) if rec is not None else T
                     fwd, _ = implies(need, inner)
                     R.judge(fwd, prefix + ".E3", key(sr, "the retry is sent whenever something is overdue" + tag, i), x["sp"], show(inner), "retry broadcast only under `%s`" % show(inner))
+                # the age of a request is measured from its registration: nothing in the timer arm may refresh it
+                muts = [x for x in ir.walk(body) if (x["k"] in ("assign", "assignop") and "self.pending" in ctx.term(x["l"])) or
+                        (x["k"] == "mcall" and x["name"] in ("insert", "entry", "get_mut", "values_mut", "iter_mut", "retain", "clear", "remove") and ctx.term(x["recv"]) == "self.pending")]
+                R.judge(not muts, prefix + ".E3", key(sr, "the retry scan does not modify the pending table" + tag), body["sp"], "",
+                        "the timer arm modifies self.pending at %s: a request whose timestamp is refreshed on every tick never becomes older than "
+                        "sync_retry_delay and is never retried" % [x["sp"] for x in muts])
                 resets = [n for n in sure_subnodes(body) if n["k"] == "mcall" and n["name"] == "reset"]
                 R.judge(bool(resets), prefix + ".E3", key(sr, "retry timer re-armed on every path" + tag), body["sp"], "", "the timer arm can leave without re-arming the retry timer")
 
